@@ -16,10 +16,11 @@ KV_ASSUME = [
 PROPS = {
     "C07": {
         "title": "ValuesForPath returns exactly the values a dot/wildcard/indexed path denotes",
+        "gen": ["setters", "pure"],
         "run_modules": ["RunKV"],
         "n": {"quick": 4000, "thorough": 60000},
         "level": "proof",
-        "technique": "Coq refinement proof (model of valuesForKeyPath/valuesForArray = declarative path semantics, all Maps and paths) + model/implementation correspondence by vm_compute",
+        "technique": "Coq refinement proof (model of valuesForKeyPath/valuesForArray = declarative path semantics, all Maps and paths) + go2v translation of func parsePath from the current keyvalues.go proved equal to the model's parse_path (GenProofs/PureG2.v) + model/implementation correspondence by vm_compute",
         "design_ref": "DESIGN.md section 6, C07",
         "assumptions": KV_ASSUME,
         "level_text": "Machine-checked refinement theorems over the executable model of ValuesForPath/ValueForPath/Exists (unbounded: every Map, every key list / path string), with the model tied to the current /repo by differential correspondence evaluated inside Coq and a Go-side oracle that evaluates the path semantics on the implementation's own results.",
@@ -33,7 +34,9 @@ def _kv(pid, title, n, text, note, technique="Coq theorems over the executable m
 
 PROPS["C08"] = _kv("C08", "Key search and sub-key filters are complete, exact and mutually consistent", {"quick": 4000, "thorough": 60000},
     "Theorems over the model of hasKey/hasKeyPath/hasSubKeys/getSubKeyMap (all Maps, keys and sub-key lists); correspondence of ValuesForKey, PathsForKey, PathForKeyShortest and ValuesForPath-with-sub-keys with the current /repo; Go-side oracle evaluates the statement's clauses on the implementation.",
-    "Trusted: Coq kernel; hand-written model validated by correspondence; ParseFloat oracle; nested-list inconsistency is a recorded finding.")
+    "Trusted: Coq kernel; hand-written model validated by correspondence; getSubKeyMap, hasSubKeys and Map.PathForKeyShortest additionally translated from the current source by go2v and proved equal to the model (GenProofs/PureG2.v; translator fragment and stdlib mapping in translator/pure.go); ParseFloat oracle; nested-list inconsistency is a recorded finding.",
+    technique="go2v translation of getSubKeyMap / hasSubKeys / Map.PathForKeyShortest proved equal to the model + Coq theorems over the executable model + model/implementation correspondence by vm_compute + Go-side oracle")
+PROPS["C08"]["gen"] = ["setters", "pure"]
 PROPS["C09"] = _kv("C09", "LeafNodes lists every terminal value once, with a path that resolves to it", {"quick": 4000, "thorough": 60000},
     "Theorems over the model of getLeafNodes (all Maps, keys, option combinations); correspondence of LeafNodes/LeafPaths/LeafValues under all option combinations; oracle resolves every leaf path through ValuesForPath on the implementation.",
     "Trusted: Coq kernel; model validated by correspondence; strconv.Itoa transcribed.")
